@@ -21,7 +21,7 @@ SPEC = {
              "quiescent point; distinct = distinct case."),
     "shards": {"quick": 16, "thorough": 16},
     "min_counts": {"quick": {"evaluations": 300, "wf_evals": 10000, "steps_executed": 3000, "rejections_checked": 100,
-                             "populate_yields": 300, "histories_on_fibers_without_default": 20, "histories_on_free_multilevel_trees": 100, "unexpected_exceptions": 200}},
+                             "populate_yields": 300, "histories_on_fibers_without_default": 20, "histories_on_free_multilevel_trees": 100, "constructions_from_bad_coordinate_lists": 60, "unexpected_exceptions": 200}},
     "assumptions": [
         "ordered/unique fibers only; the deprecated insertOrLookup is in the alphabet, the deprecated insert/setDefault are not",
         "multi-level trees are tensors; free fibers are one level deep (the default of an interior level of a free fiber is not defined), "
@@ -42,6 +42,22 @@ def generate(rng, tier, shard, nshards, mon):
     n = (2000 if tier == "quick" else 16000) // nshards
     lo, hi = (5, 40) if tier == "quick" else (5, 120)
     for i in range(n):
+        if i % 16 == 11:
+            # construction from coordinate lists that are not strictly increasing (repeated or out-of-order coordinates): the
+            # public constructors either refuse them or deliver a well-formed fiber
+            k = rng.randint(2, 6)
+            cs = sorted(rng.sample(range(12), k))
+            j = rng.randrange(k - 1)
+            how = rng.choice(["repeat", "repeat", "swap", "repeat-last"])
+            if how == "repeat":
+                cs[j + 1] = cs[j]
+            elif how == "repeat-last":
+                cs[-1] = cs[-2]
+            else:
+                cs[j], cs[j + 1] = cs[j + 1], cs[j]
+            yield {"kind": "ctor", "coords": cs, "via": rng.choice(["Fiber", "fromCoordPayloadList", "nested", "concat", "concat"]),
+                   "cut": rng.randint(1, k - 1), "default": rng.choice([0, 7])}
+            continue
         if i % 8 == 5:
             # a free (unowned) tree of 2-3 levels without empty sub-fibers, driven by full-depth reference insertions and
             # leaf-level dense reference iteration only: each new fiber learns its payload type from its siblings
@@ -115,7 +131,46 @@ class _Hooks(history.Hooks):
         self.mon.count("steps_skipped")
 
 
+def _run_ctor(case, mon):
+    from fibertree import Fiber
+    cs, via, d = case["coords"], case["via"], case["default"]
+    ps = [i + 1 for i in range(len(cs))]
+    mon.count("constructions_from_bad_coordinate_lists")
+    try:
+        if via == "Fiber":
+            f = Fiber(list(cs), list(ps), default=d)
+        elif via == "fromCoordPayloadList":
+            f = Fiber.fromCoordPayloadList(list(zip(cs, ps)), default=d)
+        elif via == "nested":
+            f = Fiber([0, 3], [Fiber([1], [1], default=d), Fiber(list(cs), list(ps), default=d)])
+        else:
+            # two well-formed fibers whose concatenation would not be: the second starts at or below the first's last coordinate
+            a_cs, b_cs = sorted(set(cs[:case["cut"]])), sorted(set(cs[case["cut"]:]))
+            if not a_cs or not b_cs or b_cs[0] > a_cs[-1]:
+                mon.count("steps_skipped")
+                return
+            a = Fiber(a_cs, [1] * len(a_cs), default=d)
+            f = a.concat(Fiber(b_cs, [2] * len(b_cs), default=d))
+    except BaseException as e:      # noqa
+        if isinstance(e, KeyboardInterrupt):
+            raise
+        mon.count("bad_coordinate_lists_refused")
+        mon.count("oracle_evals")
+        mon.nontrivial()
+        mon.state(("ctor", via, "refused"))
+        return
+    probs = WF(f)
+    mon.count("oracle_evals")
+    if probs:
+        kinds = sorted({wf_kind(p) for p in probs})
+        mon.violation(f"wf:{'+'.join(kinds)}:after:ctor", f"{via} accepted coordinates {cs} and delivered a fiber that is not well-formed: " + "; ".join(probs[:2]))
+    mon.state(("ctor", via, "accepted"))
+
+
 def run_case(case, mon):
+    if case.get("kind") == "ctor":
+        _run_ctor(case, mon)
+        return
     h = _Hooks(mon)
     n_ops = len(case["ops"])
     if case["init"].get("free_deep"):
